@@ -52,8 +52,21 @@ def dispatch_traces(f, rule):
     need("use_macros" in names and "eci" in names, rule, EDI, "(parameters use_macros, eci)")
     out = {}
     watch = ["GenericDataEncoder::with_size", "GenericDataEncoder::use_macro_if_possible", "GenericDataEncoder::write_eci", "GenericDataEncoder::codewords"]
+    # the ECI numbers to try: the form boundaries plus every integer the function itself mentions (pattern constants, range
+    # bounds, literals) and its neighbours - the function can only tell ECI values apart through those
+    mentioned = set()
+    for n_ in T.walk(b):
+        if n_.get("k") == "Const" and isinstance(n_.get("val"), int):
+            mentioned.add(n_["val"])
+        if n_.get("k") == "Range":
+            mentioned.update(x for x in (n_.get("lo"), n_.get("hi")) if isinstance(x, int))
+        if n_.get("k") == "Lit" and isinstance(n_.get("int"), int):
+            mentioned.add(n_["int"])
+    domain = {0, 3, 26, 27, 126, 127, 16382, 16383, 999999}
+    for v_ in mentioned:
+        domain.update(x for x in (v_ - 1, v_, v_ + 1) if 0 <= x <= 999999)
     for um in (False, True):
-        for eci in (None, 26):
+        for eci in [None] + sorted(domain):
             env = {full: T.Token(short) for short, full in names.items()}
             env[names["use_macros"]] = um
             env[names["eci"]] = {"__adt__": "core::option::Option", "__variant__": "None"} if eci is None else \
